@@ -67,22 +67,43 @@ theorem moveStage_core (a : Args) (e : PEnt) :
 
 /-- phases after `remove_committed_txs`/`resolve_conflict_header_dep` only drop entries or change stages -/
 theorem sub_update_tail (a : Args) (p2 : Pool) :
-    Sub (a.expired.foldl removeEntry ((a.detachedProposals.foldl detachProposal p2).map (moveStage a))) p2 :=
-  ((sub_foldl _ sub_removeEntry _ _).trans (sub_map_status _ _ (moveStage_core a))).trans
+    Sub (a.expired.foldl removeWithDesc ((a.detachedProposals.foldl detachProposal p2).map (moveStage a))) p2 :=
+  ((sub_foldl _ sub_removeWithDesc _ _).trans (sub_map_status _ _ (moveStage_core a))).trans
     (sub_foldl _ sub_detachProposal _ _)
 
 /-! ### what each removal guarantees -/
+
+theorem removeWithDesc_no_id (p : Pool) (id : Nat) : ∀ e ∈ removeWithDesc p id, e.id ≠ id := by
+  intro e he
+  have := (List.mem_filter.mp he).2
+  simp only [Bool.and_eq_true, bne_iff_ne, ne_eq] at this
+  exact this.1
+
+theorem removeWithDesc_no_desc (p : Pool) (id : Nat) : ∀ e ∈ removeWithDesc p id, e.id ∉ descOf p id := by
+  intro e he
+  have := (List.mem_filter.mp he).2
+  simp only [Bool.and_eq_true, Bool.not_eq_true', List.contains_eq_mem, decide_eq_false_iff_not] at this
+  exact this.2
+
+/-- folding `remove_entry_and_descendants` over a list leaves none of the listed ids -/
+theorem foldl_removeWithDesc_no_id (l : List Nat) (p : Pool) :
+    ∀ e ∈ l.foldl removeWithDesc p, e.id ∉ l := by
+  induction l generalizing p with
+  | nil => intro e _; simp
+  | cons x xs ih =>
+    intro e he hmem
+    simp only [List.foldl_cons] at he
+    rcases List.mem_cons.mp hmem with h | h
+    · have hsub : Sub (xs.foldl removeWithDesc (removeWithDesc p x)) (removeWithDesc p x) :=
+        sub_foldl _ sub_removeWithDesc _ _
+      obtain ⟨e0, he0, hid, _⟩ := hsub e he
+      exact removeWithDesc_no_id p x e0 he0 (hid ▸ h)
+    · exact ih _ e he h
 
 theorem removeEntry_no_id (p : Pool) (id : Nat) : ∀ e ∈ removeEntry p id, e.id ≠ id := by
   intro e he
   have := (List.mem_filter.mp he).2
   simpa using this
-
-theorem removeWithDesc_no_id (p : Pool) (id : Nat) : ∀ e ∈ removeWithDesc p id, e.id ≠ id := by
-  intro e he
-  have := (List.mem_filter.mp he).2
-  simp only [Bool.and_eq_true, bne_iff_ne] at this
-  exact this.1
 
 /-- a property of (id, spent, deps, hdeps) that holds for no entry of `p` holds for no entry of a sub-pool -/
 theorem Sub.forall {q p : Pool} (h : Sub q p) (P : Nat → List Nat → List Nat → List Nat → Prop)
